@@ -88,6 +88,31 @@ def SweepKeeps (before after : List Entry) (now : Int) : Prop :=
 
 instance (b a now) : Decidable (SweepKeeps b a now) := by unfold SweepKeeps; infer_instance
 
+/-! ### what the table holds is fixed by the registration history -/
+
+def unexpiredAt (now : Int) (e : Entry) : Bool := decide (now < e.exp)
+
+/-- **retained**: registering `id` (by `register_peer` or `add_contact`) at time `now` costs no other
+    unexpired contact its place — every contact held before that is unexpired and has another id
+    is still held afterwards — with the single exception the 16-entry cap forces: when `id` is
+    *new* (no unexpired entry carries it), is not the local id, and its bucket already holds 16
+    unexpired contacts, the least recently registered of those (the front one) may be dropped.
+    In particular a refresh of a held, unexpired contact never evicts anyone. -/
+def Retained (self : Nat) (before after : Dump) (now : Int) (id : Nat) : Prop :=
+  ∀ b ∈ before, ∀ e ∈ b.2, now < e.exp → e.id ≠ id →
+    e ∈ entries after ∨
+      ((∀ x ∈ (entries before).filter (unexpiredAt now), x.id ≠ id) ∧ id ≠ self ∧ b.1 = bucketOf self id ∧
+        16 ≤ (b.2.filter (unexpiredAt now)).length ∧ (b.2.filter (unexpiredAt now)).head? = some e)
+
+instance (self before after now id) : Decidable (Retained self before after now id) := by
+  unfold Retained; infer_instance
+
+/-- operations that register nobody (queries, dumps, clock moves) lose no unexpired contact -/
+def NothingLost (before after : List Entry) (now : Int) : Prop :=
+  ∀ e ∈ before, now < e.exp → e ∈ after
+
+instance (b a now) : Decidable (NothingLost b a now) := by unfold NothingLost; infer_instance
+
 /-! ### closest-peer queries -/
 
 def dist (target : Nat) (e : Entry) : Nat := e.id ^^^ target
